@@ -18,8 +18,9 @@ theorem rejects_iff (a : Int) : rejects a = true ↔ a < 1 := by
 theorem isIdentity_iff (a : Int) : isIdentity a = true ↔ a = 1 := by
   unfold isIdentity; simp
 
-theorem loopBound_nat (n : Nat) : loopBound (n : Int) = n := by
-  unfold loopBound; simp
+/-- `range(…)` provides at least `n` iterations (more would be harmless: the `n`-th attempt always leaves the loop). -/
+theorem loopBound_ge (n : Nat) : n ≤ loopBound (n : Int) := by
+  unfold loopBound; omega
 
 theorem isLastAttempt_iff (i n : Nat) : isLastAttempt (i : Int) (n : Int) = true ↔ i + 1 = n := by
   unfold isLastAttempt; simp; omega
@@ -42,11 +43,11 @@ theorem facts_faithful : facts.faithful = true := by decide
 
 /-! ### the loop -/
 
-/-- From iteration `i` (with `i + r = n` iterations in total) the loop ends at the first attempt `m` that is not
+/-- From iteration `i` (with `r` iterations left, enough to reach attempt `n`) the loop ends at the first attempt `m` that is not
     a retried exception, or at the last attempt `m = n - 1` whatever it does; it then returns / raises exactly
     what attempt `m` returned / raised, after `m + 1` calls. -/
 theorem loop_stop {V E : Type} (n : Nat) (script : Nat → Outcome V E) (m : Nat) :
-    ∀ (r i : Nat), i + r = n → i ≤ m → m < n →
+    ∀ (r i : Nat), n ≤ i + r → i ≤ m → m < n →
       (∀ j, i ≤ j → j < m → retried (script j) = true) →
       (retried (script m) = false ∨ m + 1 = n) →
       loop defaultExcType (n : Int) script r i = ⟨final (script m), m + 1⟩ := by
@@ -143,8 +144,8 @@ theorem retry_stop {V E : Type} (n : Nat) (hn : 1 ≤ n) (script : Nat → Outco
     subst this
     exact (retry_one_is_identity script).2
   · have h2 : 2 ≤ n := by omega
-    simp only [retryLoop, createRetry_ge_two n h2, wrapper, loopBound_nat]
-    rw [loop_stop n script m n 0 (by omega) (by omega) hm (fun j _ hj => hpre j hj) hstop]
+    simp only [retryLoop, createRetry_ge_two n h2, wrapper]
+    rw [loop_stop n script m (loopBound (n : Int)) 0 (by have := loopBound_ge n; omega) (by omega) hm (fun j _ hj => hpre j hj) hstop]
 
 /-- **Number of attempts** `= min n (first non-retried attempt + 1)`: attempts stop at the first success (or the
     first `BaseException`), and never exceed `n`. -/
